@@ -56,3 +56,27 @@ Inductive Tiled : nat -> list chunk -> list item -> Prop :=
     PartsTile n (dedent_chunk s) (dedent_want s w) ps ->
     Tiled (n + length s + length w) rest r ->
     Tiled n (CodeChunk s w :: rest) (map IPart ps ++ r).
+
+(* ---------- each part records the index of its first line ---------- *)
+
+(* parts laid out back to back from line n to line e: each starts where the previous one's source lines end *)
+Fixpoint Consecutive (n : nat) (ps : list part) (e : nat) : Prop :=
+  match ps with
+  | [] => e = n
+  | p :: r => line_offset p = n /\ Consecutive (n + length (orig_lines p)) r e
+  end.
+
+(* the items of a docstring laid out over its chunks: a chunk that starts at docstring line n becomes one text
+   item, or parts that cover its source lines back to back starting at n (the want lines follow the last part) *)
+Inductive LaidOut : nat -> list chunk -> list item -> Prop :=
+| LaidOut_nil n : LaidOut n [] []
+| LaidOut_text n ls rest r :
+    LaidOut (n + length ls) rest r -> LaidOut n (TextChunk ls :: rest) (IText (join_nl ls) :: r)
+| LaidOut_code n s w rest ps r :
+    Consecutive n ps (n + length s) ->
+    LaidOut (n + length s + length w) rest r ->
+    LaidOut n (CodeChunk s w :: rest) (map IPart ps ++ r).
+
+(* what is assumed of the ast oracle for this: a statement starts on a line of the source it was given *)
+Definition AstInRange (o : oracles) : Prop :=
+  forall lines stmts, o_ast o lines = Ok stmts -> forall s, In s stmts -> (st_line s < length lines)%nat.
